@@ -654,9 +654,49 @@ func credentialsGuard(f *ast.File) string {
 		return ""
 	}
 	g := tr(i3.Cond)
-	return fmt.Sprintf("(* a Go string is the list of its bytes; s == \"\" *)\nDefinition pw_empty (s : list N) : bool := match s with [] => true | _ :: _ => false end.\n\n"+
-		"(* %s (handlePermissions: `if <guard> { return nil }` -- no credentials supplied, the permission test is skipped) *)\n"+
+	return fmt.Sprintf("(* %s (handlePermissions: `if <guard> { return nil }` -- no credentials supplied, the permission test is skipped) *)\n"+
 		"Definition noCredentialsSupplied (opw upw : list N) : bool :=\n  %s.\n", pos(i3), g)
+}
+
+// ownerGuard: validateOwnerPasswordAES256 / validateOwnerPasswordAES256Rev6 must START with
+//
+//	if len(ctx.OwnerPW) == 0 { return false, nil }        (or ctx.OwnerPW == "")
+//
+// i.e. no owner password supplied => the owner is not authenticated, whatever /O says. A function
+// without this first statement is an unknown shape and fails.
+func ownerGuard(f *ast.File, name string) string {
+	fd := findFunc(f, name)
+	ps := paramNames(fd)
+	if len(ps) != 1 || ps[0] != "ctx" {
+		die("%s: %s: single parameter ctx expected", pos(fd), name)
+	}
+	if len(fd.Body.List) == 0 {
+		die("%s: %s: empty body", pos(fd), name)
+	}
+	is, ok := fd.Body.List[0].(*ast.IfStmt)
+	if !ok || is.Init != nil || is.Else != nil || len(is.Body.List) != 1 {
+		die("%s: %s: the first statement must be `if len(ctx.OwnerPW) == 0 { return false, nil }`", pos(fd.Body.List[0]), name)
+	}
+	isOwnerPW := func(e ast.Expr) bool {
+		s, ok := e.(*ast.SelectorExpr)
+		return ok && isIdent(s.X, "ctx") && s.Sel.Name == "OwnerPW"
+	}
+	condOK := false
+	if c, ok := is.Cond.(*ast.BinaryExpr); ok && c.Op == token.EQL {
+		if call, ok := c.X.(*ast.CallExpr); ok && isIdent(call.Fun, "len") && len(call.Args) == 1 && isOwnerPW(call.Args[0]) {
+			if v, ok := intLit(c.Y); ok && v == 0 {
+				condOK = true
+			}
+		}
+		if l, ok := c.Y.(*ast.BasicLit); ok && isOwnerPW(c.X) && l.Kind == token.STRING && l.Value == `""` {
+			condOK = true
+		}
+	}
+	r, ok := is.Body.List[0].(*ast.ReturnStmt)
+	if !condOK || !ok || len(r.Results) != 2 || !isIdent(r.Results[0], "false") || !isIdent(r.Results[1], "nil") {
+		die("%s: %s: the first statement must be `if len(ctx.OwnerPW) == 0 { return false, nil }`", pos(is), name)
+	}
+	return fmt.Sprintf("(* %s (%s starts with `if len(ctx.OwnerPW) == 0 { return false, nil }`: without a supplied owner\n   password the owner is not authenticated, whatever /O contains) *)\nDefinition %s_noOwnerPW (opw : list N) : bool := pw_empty opw.\n", pos(is), name, name)
 }
 
 func main() {
@@ -684,10 +724,12 @@ func main() {
 	nb := needsBoth(rf, known)
 	re := rejectsEncrypted(rf, known)
 	cg := credentialsGuard(rf)
+	og := ownerGuard(cf, "validateOwnerPasswordAES256") + "\n" + ownerGuard(cf, "validateOwnerPasswordAES256Rev6")
 
 	var sb strings.Builder
 	sb.WriteString("(* GENERATED by /verif/go/cmd/genc26 from pkg/pdfcpu/model/configuration.go, pkg/pdfcpu/crypto.go and\n   pkg/pdfcpu/read.go on every run of ./check C26. Do not edit. *)\n")
 	sb.WriteString("From Coq Require Import ZArith NArith List Bool.\nImport ListNotations.\nOpen Scope Z_scope.\n\n")
+	sb.WriteString("(* a Go string is the list of its bytes; s == \"\" (equivalently len(s) == 0) *)\nDefinition pw_empty (s : list N) : bool := match s with [] => true | _ :: _ => false end.\n\n")
 	sb.WriteString("(* model.CommandMode constants (iota order) *)\n")
 	for i, n := range names {
 		fmt.Fprintf(&sb, "Definition CM_%s : Z := %d.\n", n, i)
@@ -715,7 +757,7 @@ func main() {
 	sb.WriteString("].\n\n")
 	sb.WriteString("(* Go map lookup `p, ok := perm[mode]` (keys are unique: checked by the generator and by the Go compiler) *)\n")
 	sb.WriteString("Fixpoint perm_lookup (l : list (Z * (Z * Z))) (mode : Z) : option (Z * Z) :=\n  match l with\n  | [] => None\n  | (k, v) :: tl => if (k =? mode) then Some v else perm_lookup tl mode\n  end.\n\n")
-	sb.WriteString(mE + "\n" + mM + "\n" + nb + "\n" + re + "\n" + cg)
+	sb.WriteString(mE + "\n" + mM + "\n" + nb + "\n" + re + "\n" + cg + "\n" + og)
 	if err := os.WriteFile(*out, []byte(sb.String()), 0o644); err != nil {
 		die("%v", err)
 	}
